@@ -45,7 +45,9 @@ theorem dedupFirst_filter (p : V → Bool) : ∀ (l : List V), dedupFirst (l.fil
       exact filter_congr this
 
 theorem idxOf_cons_ne' {a x : V} (l : List V) (h : x ≠ a) : (x :: l).idxOf a = l.idxOf a + 1 := by
-  rw [idxOf_cons]; simp [h]
+  rw [idxOf_cons]
+  have : (x == a) = false := by simpa using h
+  rw [this]; rfl
 
 /-- first-occurrence order: the first positions in `l` of the elements of `dedupFirst l` increase. -/
 theorem dedupFirst_order : ∀ (l : List V), (dedupFirst l).Pairwise fun a b => l.idxOf a < l.idxOf b
@@ -132,7 +134,7 @@ theorem imInsert_attach {akey : Nat → Nat} (hk : ∀ i j, akey i = akey j → 
     intro a _
     simp only [Function.comp]
     by_cases hka : keyOf akey a = keyOf akey v
-    · simp [hka, keyOf_inj hk hka]
+    · simp [keyOf_inj hk hka]
     · simp [hka]
   · simp [h, attach]
 
@@ -176,7 +178,7 @@ theorem buildDict_eq {akey : Nat → Nat} (hk : ∀ i j, akey i = akey j → i =
 theorem filterMap_range_take (l : List V) : ∀ n, (List.range n).filterMap (fun i => l[i]?) = l.take n
   | 0 => by simp
   | n + 1 => by
-    rw [range_succ, filterMap_append, filterMap_range_take l n, take_succ]
+    rw [range_succ, filterMap_append, filterMap_range_take l n, take_add_one]
     cases h : l[n]? <;> simp [h]
 
 theorem filterMap_getElem?_range (l : List V) : (List.range l.length).filterMap (fun i => l[i]?) = l := by
@@ -221,9 +223,6 @@ theorem comp_flag (x v : V) :
 theorem any_key_iff (m : Seen) (v : V) : (m.any fun e => e.1 == v) = decide (v ∈ m.map (·.1)) := by
   rw [Bool.eq_iff_iff]
   simp only [any_eq_true, beq_iff_eq, decide_eq_true_eq, mem_map]
-  constructor
-  · rintro ⟨e, he, rfl⟩; exact ⟨e, he, rfl⟩
-  · rintro ⟨e, he, rfl⟩; exact ⟨e, he, rfl⟩
 
 theorem find_seenInsert_ne (m : Seen) {x v : V} (h : x ≠ v) :
     (seenInsert m x).find? (fun e => e.1 == v) = m.find? (fun e => e.1 == v) := by
@@ -365,5 +364,113 @@ theorem sortByIdx_sorted : ∀ (l : List (VarKey × V × Nat)), (sortByIdx l).Pa
   | x :: r => by
     unfold sortByIdx
     exact insertByIdx_sorted x _ (sortByIdx_sorted r)
+
+/-! ## mechanism = specification -/
+
+theorem filterMap_congr' {α β} {f g : α → Option β} : ∀ {l : List α}, (∀ a ∈ l, f a = g a) →
+    l.filterMap f = l.filterMap g
+  | [], _ => rfl
+  | a :: l, h => by
+    have ih := filterMap_congr' (l := l) (fun b hb => h b (mem_cons_of_mem _ hb))
+    simp only [filterMap_cons, h a mem_cons_self, ih]
+
+theorem dedupFirst_perm {l₁ l₂ : List V} (h : l₁ ~ l₂) : dedupFirst l₁ ~ dedupFirst l₂ := by
+  rw [perm_ext_iff_of_nodup (nodup_dedupFirst _) (nodup_dedupFirst _)]
+  intro a; rw [mem_dedupFirst, mem_dedupFirst]; exact h.mem_iff
+
+theorem length_varsOf (occs : List Occ) : (varsOf occs).length = occs.length := by simp [varsOf]
+
+/-- the distinct variables met by the heap writer are the distinct variables of the term. -/
+theorem dictVars_perm (occs : List Occ) {order : List Nat} (hp : order ~ List.range occs.length) :
+    dedupFirst (order.filterMap fun i => (varsOf occs)[i]?) ~ dedupFirst (varsOf occs) := by
+  apply dedupFirst_perm
+  have := hp.filterMap (fun i => (varsOf occs)[i]?)
+  rwa [← length_varsOf, filterMap_getElem?_range] at this
+
+def entryOf (akey : Nat → Nat) (L : List V) (v : V) : VarKey × V × Nat := (keyOf akey v, v, L.idxOf v)
+
+theorem nodup_pairwise_idxOf {L : List V} (h : L.Nodup) : L.Pairwise fun a b => L.idxOf a < L.idxOf b := by
+  rw [pairwise_iff_getElem]
+  intro i j hi hj hij
+  rw [h.idxOf_getElem i hi, h.idxOf_getElem j hj]; exact hij
+
+theorem idxOf_inj_of_mem {L : List V} {a b : V} (ha : a ∈ L) (hb : b ∈ L) (h : L.idxOf a = L.idxOf b) : a = b := by
+  have h1 := getElem_idxOf (idxOf_lt_length_of_mem ha)
+  have h2 := getElem_idxOf (idxOf_lt_length_of_mem hb)
+  rw [← h1, ← h2]; simp [h]
+
+/-- sorting any permutation of the distinct variables by their index gives them in index order. -/
+theorem sort_entries (akey : Nat → Nat) {L D : List V} (hL : L.Nodup) (hD : D ~ L) :
+    sortByIdx (D.map (entryOf akey L)) = L.map (entryOf akey L) := by
+  have hperm : sortByIdx (D.map (entryOf akey L)) ~ L.map (entryOf akey L) :=
+    (sortByIdx_perm _).trans (hD.map _)
+  refine Perm.eq_of_pairwise (le := leIdx) ?_ (sortByIdx_sorted _) ?_ hperm
+  · intro a b ha hb hab hba
+    obtain ⟨va, hva, rfl⟩ := mem_map.mp (hperm.subset ha)
+    obtain ⟨vb, hvb, rfl⟩ := mem_map.mp hb
+    have : L.idxOf va = L.idxOf vb := Nat.le_antisymm hab hba
+    rw [idxOf_inj_of_mem hva hvb this]
+  · rw [pairwise_map]
+    exact (nodup_pairwise_idxOf hL).imp (fun h => Nat.le_of_lt h)
+
+theorem varList_eq (akey : Nat → Nat) (occs : List Occ) {D : List V} (hD : ∀ v ∈ D, v ∈ varsOf occs) :
+    ((attach akey D).filterMap fun e => (idxIn (seenOf (varsOf occs)) e.2).map fun idx => (e.1, e.2, idx)) =
+      D.map (entryOf akey (dedupFirst (varsOf occs))) := by
+  unfold attach
+  rw [filterMap_map, ← filterMap_eq_map]
+  apply filterMap_congr'
+  intro v hv
+  simp [idxIn_seenOf, hD v hv, entryOf]
+
+def singleFn (vs : List V) : V → Option (String × V)
+  | .named n => if vs.count (.named n) == 1 then some (n, .named n) else none
+  | .site _ => none
+
+theorem singles_eq (akey : Nat → Nat) (occs : List Occ) (D : List V) :
+    ((attach akey D).filterMap fun e =>
+      match e.1 with
+      | .name n => if flagIn (seenOf (varsOf occs)) e.2 then some (n, e.2) else none
+      | .anonK _ => none) = D.filterMap (singleFn (varsOf occs)) := by
+  unfold attach
+  rw [filterMap_map]
+  apply filterMap_congr'
+  intro v _
+  cases v <;> simp [keyOf, singleFn, flagIn_seenOf]
+
+theorem specSingletons_eq (occs : List Occ) :
+    specSingletons occs = (dedupFirst (varsOf occs)).filterMap (singleFn (varsOf occs)) := by
+  unfold specSingletons specVariableNames specVariables
+  rw [filter_filterMap]
+  apply filterMap_congr'
+  intro v _
+  cases v with
+  | named n =>
+    simp only [nameEntry, singleFn, Option.filter]
+  | site i => simp [nameEntry, singleFn]
+
+theorem keyName_entryOf (akey : Nat → Nat) (L : List V) (v : V) : keyName (entryOf akey L v) = nameEntry v := by
+  cases v <;> rfl
+
+theorem mechanism_eq (akey : Nat → Nat) (hk : ∀ i j, akey i = akey j → i = j) (occs : List Occ)
+    {order : List Nat} (hp : order ~ List.range occs.length) :
+    (mechanism akey occs order).variables = specVariables occs ∧
+    (mechanism akey occs order).variableNames = specVariableNames occs ∧
+    (mechanism akey occs order).singletons =
+      (dedupFirst (order.filterMap fun i => (varsOf occs)[i]?)).filterMap (singleFn (varsOf occs)) := by
+  have hD := dictVars_perm occs hp
+  have hmem : ∀ v ∈ dedupFirst (order.filterMap fun i => (varsOf occs)[i]?), v ∈ varsOf occs := by
+    intro v hv; exact mem_dedupFirst.mp (hD.subset hv)
+  have hsort := sort_entries akey (nodup_dedupFirst (varsOf occs)) hD
+  unfold mechanism
+  simp only [buildDict_eq hk, varList_eq akey occs hmem, hsort]
+  refine ⟨?_, ?_, singles_eq akey occs _⟩
+  · rw [map_map]
+    show map (fun v => v) _ = _
+    simp [specVariables]
+  · rw [filterMap_map]
+    simp only [specVariableNames, specVariables]
+    apply filterMap_congr'
+    intro v _
+    exact keyName_entryOf akey _ v
 
 end Scryer.ReadVars
